@@ -303,6 +303,7 @@ pub mod sup {
         pub fn default() -> Inh { Inh(0xdd) }
     }
     impl Clone for Inh { fn clone(&self) -> Self { Inh(self.0) } }
+    impl Copy for Inh {}
     impl PartialEq for Inh { fn eq(&self, o: &Self) -> bool { self.0 == o.0 } }
     impl Eq for Inh {}
     impl PartialOrd for Inh { fn partial_cmp(&self, o: &Self) -> Option<Ordering> { Some(u8::cmp(&self.0, &o.0)) } }
@@ -586,10 +587,12 @@ pub mod dbg {
     #[derive(Clone, Copy)]
     pub struct Val<const ID: u8>(pub u8);
     const TOK: [&str; 8] = ["v0", "v1", "v2", "v3", "v4", "v5", "v6", "v7"];
+    const TOK_ALT: [&str; 8] = ["V0", "V1", "V2", "V3", "V4", "V5", "V6", "V7"];
     impl<const ID: u8> Debug for Val<ID> {
         fn fmt(&self, f: &mut Formatter<'_>) -> fmt::Result {
             log_push(ID, self.0);
-            f.write_str(TOK[(ID & 7) as usize])
+            // the token depends on the formatter's alternate flag: a value re-formatted with a fresh `{:?}` inside `{:#?}` shows
+            f.write_str(if f.alternate() { TOK_ALT[(ID & 7) as usize] } else { TOK[(ID & 7) as usize] })
         }
     }
     impl<const ID: u8> Sym for Val<ID> {
